@@ -1,5 +1,5 @@
 #!/bin/sh
 # usage: tools/run_one_change.sh <dir of a stored change> <BENIGN|SEED> : one line "<kind> <name> :: <verdict lines>"
 d=$1; kind=$2; n=$(basename $d); p=${n%-*}
-r=$(/verif/tools/try_seed.sh $d $p 2>&1 | grep -E "^VIOLATION|^UNDEC|^OK|^exit|rror" | tr '\n' ' ' | cut -c1-260)
+r=$(/verif/tools/try_seed.sh $d $p 2>&1 | grep -E "^VIOLATION|^UNDEC|^OK|^exit" | tr '\n' ' ' | cut -c1-260)
 echo "$kind $n :: $r"
